@@ -498,7 +498,7 @@ pub fn run(run: &Run) {
     run.run_replays::<Cell>("matrix", &move |c: &Cell, o: &mut Obs| check_cell(&t1, c, o));
     run.run_replays::<StyleCase>("styles", &check_style);
     // exhaustive matrix: every cell once per pass, with a generated pattern per cell (workers split the cells)
-    let passes = run.tier.pick(1usize, 20);
+    let passes = run.tier.pick(2usize, 20);
     let mut ok = true;
     let mut runner = proptest::test_runner::TestRunner::new(proptest::test_runner::Config {
         rng_seed: proptest::test_runner::RngSeed::Fixed(run.part_seed("matrix-patterns")),
